@@ -7,5 +7,5 @@ CONSTANTS
   SweepStatuses <- SweepAll
   Kinds = {"GET", "HEAD"}
   Export = FALSE
-INVARIANTS StatusPerTable IsPreserved CellsExact CodePreserved DetailPreserved HeadLaw MessageFixedPoint FirstHopMessage
+INVARIANTS StatusPerTable IsPreserved CellsExact CodePreserved DetailPreserved HeadLaw MessageFixedPoint FirstHopMessage ItemsLaw
 CHECK_DEADLOCK FALSE
